@@ -333,6 +333,20 @@ class ExprMixin:
     # ---- comparison ------------------------------------------------------------------------------------------------
     def e_Compare(self, st, n):
         left = self.eval(st, n.left)
+        if len(n.ops) == 1 and isinstance(n.ops[0], (ast.Lt, ast.LtE, ast.Gt, ast.GtE)) and not self.spec_mode \
+                and left.t[0] == "nd" and left.t[1][0] in ("float", "int") and self.ctx.float_mode != "fp":
+            right = self.eval(st, n.comparators[0])
+            if right.t[0] in ("int", "float", "bool"):
+                # numpy broadcasting of an ordered comparison: ndarray <op> scalar is the fresh boolean array of the
+                # element-wise comparisons (assumed of numpy, tag AX_numpy_compare_elementwise)
+                self.ctx.tags.add("AX_numpy_compare_elementwise")
+                el = st.seq_elems(left)
+                k = z3.Int(self.ctx.fresh_name("bc"))
+                elem = V(left.t[1], el[k])
+                body = self.compare(st, n.ops[0], elem, right, n)
+                K = self.keys_array(st, "bcast:" + z3.substitute(body, (k, z3.Int("ki"))).sexpr(),
+                                    lambda x: z3.substitute(body, (k, x)), z3.BoolSort())
+                return st.new_seq(("bool",), "nd", st.seq_len(left), K, "bcast")
         acc = None
         for op, rn in zip(n.ops, n.comparators):
             right = self.eval(st, rn)
@@ -558,6 +572,23 @@ class ExprMixin:
         if is_static(base, "sdict"):
             base.items[self.static_str(self.eval(st, tgt.slice))] = val
             return
+        if base.t[0] == "dlog":
+            key = self.eval(st, tgt.slice)
+            if key.t[0] != "str":
+                raise Unsupported(f"dict key of type {key.t}")
+            if val.t[0] in ("list", "nd"):
+                # a list stored as a dict value: boxed into the abstract value sort (unboxl is its inverse)
+                bz = z3.Function("boxl", z3.IntSort(), z3.IntSort())(val.z)
+                st.assume(z3.Function("unboxl", z3.IntSort(), z3.IntSort())(bz) == val.z)
+                st.assume(z3.Function("isboxl", z3.IntSort(), z3.BoolSort())(bz))
+                val = V(("val",), bz)
+            elif val.t[0] != "val":
+                raise Unsupported(f"dict value of type {val.t}")
+            ks, vs = base.items
+            nk, nv = st.seq_len(ks), st.seq_len(vs)
+            st.seq_set_content(ks, nk + 1, z3.Store(st.seq_elems(ks), nk, key.z))
+            st.seq_set_content(vs, nv + 1, z3.Store(st.seq_elems(vs), nv, val.z))
+            return
         if base.t[0] == "list":
             if isinstance(tgt.slice, ast.Slice):
                 raise Unsupported("slice assignment")
@@ -767,6 +798,10 @@ class ExprMixin:
             s2.frames.append(dict(st.env))
             s2.qmode = {"overlay": {}, "new": set(), "newrefs": [], "alloc0": alloc0, "alloc1": alloc1}
             s2.assume(z3.And(i >= 0, i < n_len))
+            if self.cur is not None and "eager-inst" in self.cur.hints:
+                # instances of assumptions at the bound index (sound; not exported with the summary): lets the
+                # quantifier-free path solver prune alternatives an object invariant excludes for every element
+                self.instantiate_at(s2, i)
             mark = len(s2.pc)
             s2.assume(z3.And(base >= alloc0, endc <= alloc1))
             s2.alloc = base
@@ -1186,6 +1221,19 @@ class ExprMixin:
                     # the (dynamic) type of the result depends on a condition over the pre-state: one path per alternative
                     cz = self.truth(st, self._spec_in(st, c.returns["when"], None, frame))
                     when_key = "then" if self.choose(st, cz) else "else"
+                    for pname, kinds in c.arg_shape_when.get(when_key, {}).items():
+                        if pname in frame and isinstance(frame[pname], V) and frame[pname].t[0] not in kinds:
+                            # the argument has the wrong dynamic type for this alternative (a scalar where the callee
+                            # takes a sequence, or the converse): a violated precondition on this path
+                            self.oblige(st, z3.BoolVal(False), "pre", f"{short}.argument-is-{'-or-'.join(kinds)}-when-{when_key}",
+                                        self.loc(node), f"{pname}: {frame[pname].t[0]} given where {kinds} is required ({c.returns['when']} is {when_key == 'then'})")
+                            raise PathEnd()
+                    if not self.spec_mode:
+                        for lab, r in c.requires_when.get(when_key, []):
+                            stc = st.clone()
+                            g = self.truth(stc, self.eval_goal(stc, r, None, mode="in", frame=frame))
+                            self.oblige(stc, g, "pre", f"{short}.{lab}", self.loc(node), r)
+                            st.assume(g)
                     rt = parse_type(c.returns[when_key])
                 else:
                     rt = parse_type(self.ret_type(c))
